@@ -329,3 +329,396 @@ Proof.
   - rewrite Forall_forall in B. specialize (B h I). unfold same_group in B.
     rewrite (rt_matches_join g h cb []) in B by assumption. discriminate.
 Qed.
+
+(* ------------------------------------------------------------------------------------------ *)
+(* (c) the bases of a category partition the rows carrying that category                      *)
+(* ------------------------------------------------------------------------------------------ *)
+Open Scope Q_scope.
+
+Definition sumQ_groups (rts : list rate_total) : Q :=
+  fold_right (fun g s => toQ (rt_base g) + s) 0 rts.
+
+(* sum of the bases of all groups of the category with the given code *)
+Fixpoint sumQ_bases (cat : bytes) (cts : list cat_total) : Q :=
+  match cts with
+  | [] => 0
+  | ct :: r => (if eqb_bytes (ct_code ct) cat then sumQ_groups (ct_rates ct) else 0) + sumQ_bases cat r
+  end.
+
+(* what one row gives to a category: its (tax-exclusive) total once per combo of that category *)
+Definition row_share (cr : bool) (c : nat) (cat : bytes) (tot : amount) (cbs : list combo) : Q :=
+  fold_right (fun cb s => (if eqb_bytes (cb_cat cb) cat then toQ (contrib cr c tot) else 0) + s) 0 cbs.
+
+Definition sumQ_rows (cr : bool) (c : nat) (cat : bytes) (tls : list tax_line) : Q :=
+  fold_right (fun tl s => row_share cr c cat (tl_total tl) (tl_taxes tl) + s) 0 tls.
+
+(* under the currency rule every base stays at the currency's decimals *)
+Definition exp_ok (cr : bool) (c : nat) (g : rate_total) : Prop := cr = true -> exp (rt_base g) = c.
+Definition cats_exp_ok cr c (cts : list cat_total) : Prop :=
+  Forall (fun ct => Forall (exp_ok cr c) (ct_rates ct)) cts.
+
+Lemma exp_ok_add_base cr c tot g : exp_ok cr c g -> exp_ok cr c (rt_add_base cr tot g).
+Proof. intros H E. unfold rt_add_base. cbn [rt_base]. apply (acc_rr_exp_true cr c); auto. Qed.
+
+Lemma exp_ok_new cr c cb : exp_ok cr c (new_rt c cb).
+Proof. intros _. reflexivity. Qed.
+
+Lemma add_to_rates_exp_ok cr c tot cb rts :
+  Forall (exp_ok cr c) rts -> Forall (exp_ok cr c) (add_to_rates cr c tot cb rts).
+Proof.
+  induction rts as [|rt r IH]; intros F; cbn [add_to_rates].
+  - constructor; [|constructor]. apply exp_ok_add_base, exp_ok_new.
+  - inversion F; subst. destruct (rt_matches rt cb); constructor; auto using exp_ok_add_base.
+Qed.
+
+Lemma add_to_rates_sum cr c tot cb rts :
+  Forall (exp_ok cr c) rts ->
+  sumQ_groups (add_to_rates cr c tot cb rts) == sumQ_groups rts + toQ (contrib cr c tot).
+Proof.
+  induction rts as [|rt r IH]; intros F; cbn [add_to_rates].
+  - unfold sumQ_groups. cbn [fold_right].
+    rewrite (rt_add_base_toQ cr c) by apply exp_ok_new.
+    unfold new_rt. cbn [rt_base]. rewrite toQ_zero. ring.
+  - inversion F; subst. destruct (rt_matches rt cb).
+    + unfold sumQ_groups. cbn [fold_right]. rewrite (rt_add_base_toQ cr c) by assumption. ring.
+    + unfold sumQ_groups in *. cbn [fold_right]. rewrite IH by assumption. ring.
+Qed.
+
+Lemma add_to_cats_exp_ok cr c tot cb cts :
+  cats_exp_ok cr c cts -> cats_exp_ok cr c (add_to_cats cr c tot cb cts).
+Proof.
+  unfold cats_exp_ok. induction cts as [|ct r IH]; intros F; cbn [add_to_cats].
+  - constructor; [|constructor]. cbn [ct_with_rates ct_rates]. apply add_to_rates_exp_ok. constructor.
+  - inversion F; subst. destruct (eqb_bytes (ct_code ct) (cb_cat cb)); constructor; auto.
+    cbn [ct_with_rates ct_rates]. apply add_to_rates_exp_ok. assumption.
+Qed.
+
+(* one (total, combo) pair: the category of the combo grows by the contribution, every other
+   category keeps its sum *)
+Lemma add_to_cats_sum cr c tot cb cts cat :
+  cats_exp_ok cr c cts ->
+  sumQ_bases cat (add_to_cats cr c tot cb cts) ==
+  sumQ_bases cat cts + (if eqb_bytes (cb_cat cb) cat then toQ (contrib cr c tot) else 0).
+Proof.
+  unfold cats_exp_ok. induction cts as [|ct r IH]; intros F; cbn [add_to_cats].
+  - cbn [sumQ_bases ct_with_rates new_ct ct_code ct_rates].
+    destruct (eqb_bytes (cb_cat cb) cat).
+    + rewrite add_to_rates_sum by constructor. unfold sumQ_groups. cbn [fold_right]. ring.
+    + ring.
+  - inversion F; subst. destruct (eqb_bytes (ct_code ct) (cb_cat cb)) eqn:E.
+    + apply eqb_bytes_eq in E. cbn [sumQ_bases ct_with_rates ct_code ct_rates]. rewrite E.
+      destruct (eqb_bytes (cb_cat cb) cat).
+      * rewrite add_to_rates_sum by assumption. ring.
+      * ring.
+    + cbn [sumQ_bases]. rewrite IH by assumption. ring.
+Qed.
+
+Lemma add_tl_exp_ok cr c cts tl : cats_exp_ok cr c cts -> cats_exp_ok cr c (add_tl cr c cts tl).
+Proof.
+  unfold add_tl. generalize (tl_total tl) as tot. intros tot.
+  revert cts. induction (tl_taxes tl) as [|cb r IH]; intros cts W; cbn [fold_left]; auto.
+  apply IH, add_to_cats_exp_ok, W.
+Qed.
+
+Lemma add_tl_sum cr c cts tl cat :
+  cats_exp_ok cr c cts ->
+  sumQ_bases cat (add_tl cr c cts tl) == sumQ_bases cat cts + row_share cr c cat (tl_total tl) (tl_taxes tl).
+Proof.
+  unfold add_tl. generalize (tl_total tl) as tot. intros tot.
+  revert cts. induction (tl_taxes tl) as [|cb r IH]; intros cts W; cbn [fold_left row_share fold_right].
+  - ring.
+  - rewrite IH by (apply add_to_cats_exp_ok, W). rewrite add_to_cats_sum by exact W.
+    fold (row_share cr c cat tot r). ring.
+Qed.
+
+Lemma base_totals_exp_ok cr c tls : cats_exp_ok cr c (base_totals cr c tls).
+Proof.
+  unfold base_totals.
+  assert (G : forall cts, cats_exp_ok cr c cts -> cats_exp_ok cr c (fold_left (add_tl cr c) tls cts)).
+  { induction tls as [|tl r IH]; intros cts W; cbn [fold_left]; auto. apply IH, add_tl_exp_ok, W. }
+  apply G. constructor.
+Qed.
+
+Lemma tax_partition_rule cr c tls cat :
+  sumQ_bases cat (base_totals cr c tls) == sumQ_rows cr c cat tls.
+Proof.
+  unfold base_totals.
+  assert (G : forall cts, cats_exp_ok cr c cts ->
+            sumQ_bases cat (fold_left (add_tl cr c) tls cts) == sumQ_bases cat cts + sumQ_rows cr c cat tls).
+  { induction tls as [|tl r IH]; intros cts W; cbn [fold_left sumQ_rows fold_right].
+    - ring.
+    - rewrite IH by (apply add_tl_exp_ok, W). rewrite add_tl_sum by exact W.
+      fold (sumQ_rows cr c cat r). ring. }
+  rewrite G by constructor. cbn [sumQ_bases]. ring.
+Qed.
+
+(* 'precise': the rows themselves, nothing rounded *)
+Lemma tax_partition c tls cat :
+  sumQ_bases cat (base_totals false c tls) == sumQ_rows false c cat tls.
+Proof. apply tax_partition_rule. Qed.
+
+(* ------------------------------------------------------------------------------------------ *)
+(* (d) group amounts and category amounts                                                     *)
+(* ------------------------------------------------------------------------------------------ *)
+(* an exempt group has amount zero; any other group's amount is its percentage of its base,
+   rounded half away from zero at the base's precision; likewise its surcharge amount *)
+Definition group_amounts_ok (c : nat) (g : rate_total) : Prop :=
+  match rt_pct g with
+  | None => rt_amount g = zero_of c
+  | Some p =>
+    rt_amount g = pct_of p (rt_base g) /\
+    val (rt_amount g) = roundQ (exp (rt_base g)) (toQ (rt_base g) * toQ p) /\
+    exp (rt_amount g) = exp (rt_base g) /\
+    match rt_sur g with
+    | None => True
+    | Some s =>
+      rt_suramount g = pct_of s (rt_base g) /\
+      val (rt_suramount g) = roundQ (exp (rt_base g)) (toQ (rt_base g) * toQ s) /\
+      exp (rt_suramount g) = exp (rt_base g)
+    end
+  end.
+
+Lemma rt_calc_ok c g : group_amounts_ok c (rt_calc c g).
+Proof.
+  unfold group_amounts_ok, rt_calc. destruct (rt_pct g) as [p|] eqn:Ep; cbn [rt_pct rt_amount rt_base rt_sur rt_suramount].
+  - rewrite ?Ep. repeat split.
+    + apply pct_of_val.
+    + destruct (rt_sur g) as [s|]; [|exact I]. repeat split. apply pct_of_val.
+  - rewrite ?Ep. reflexivity.
+Qed.
+
+Lemma rt_calc_base c g : rt_base (rt_calc c g) = rt_base g.
+Proof. unfold rt_calc. destruct (rt_pct g); reflexivity. Qed.
+Lemma rt_calc_pct c g : rt_pct (rt_calc c g) = rt_pct g.
+Proof. unfold rt_calc. destruct (rt_pct g); reflexivity. Qed.
+Lemma rt_calc_sur c g : rt_sur (rt_calc c g) = rt_sur g.
+Proof. unfold rt_calc. destruct (rt_pct g); reflexivity. Qed.
+Lemma rt_calc_matches c g cb : rt_matches (rt_calc c g) cb = rt_matches g cb.
+Proof. unfold rt_calc. destruct (rt_pct g) eqn:E; unfold rt_matches; cbn [rt_ext rt_country rt_pct rt_sur]; rewrite ?E; reflexivity. Qed.
+
+Lemma group_amount_is_percentage_of_base cr c ct :
+  Forall (group_amounts_ok c) (ct_rates (ct_calc cr c ct)) /\
+  map rt_base (ct_rates (ct_calc cr c ct)) = map rt_base (ct_rates ct) /\
+  ct_code (ct_calc cr c ct) = ct_code ct /\ ct_retained (ct_calc cr c ct) = ct_retained ct.
+Proof.
+  unfold ct_calc. cbn [ct_rates ct_code ct_retained]. repeat split.
+  - apply Forall_forall. intros g I. apply in_map_iff in I. destruct I as (g0 & <- & _). apply rt_calc_ok.
+  - rewrite map_map. apply map_ext. intros g. apply rt_calc_base.
+Qed.
+
+Definition taxed_amount (cr : bool) (c : nat) (g : rate_total) : Q :=
+  match rt_pct g with Some _ => toQ (contrib cr c (rt_amount g)) | None => 0 end.
+Definition taxed_surcharge (cr : bool) (c : nat) (g : rate_total) : Q :=
+  match rt_pct g, rt_sur g with Some _, Some _ => toQ (contrib cr c (rt_suramount g)) | _, _ => 0 end.
+Definition sumQ_amounts cr c (rts : list rate_total) : Q := fold_right (fun g s => taxed_amount cr c g + s) 0 rts.
+Definition sumQ_surcharges cr c (rts : list rate_total) : Q := fold_right (fun g s => taxed_surcharge cr c g + s) 0 rts.
+Definition optQ (o : option amount) : Q := match o with Some a => toQ a | None => 0 end.
+Definition carries_surcharge (g : rate_total) : bool :=
+  match rt_pct g, rt_sur g with Some _, Some _ => true | _, _ => false end.
+
+(* precision bookkeeping of the (amount, surcharge) accumulator *)
+Definition st_ok (cr : bool) (c : nat) (st : amount * option amount) : Prop :=
+  (cr = true -> exp (fst st) = c) /\ (c <= exp (fst st))%nat /\
+  match snd st with
+  | Some s => (cr = true -> exp s = c) /\ (exp s <= exp (fst st))%nat
+  | None => True
+  end.
+Definition sur_exp_ok (g : rate_total) : Prop :=
+  match rt_pct g, rt_sur g with Some _, Some _ => exp (rt_suramount g) = exp (rt_amount g) | _, _ => True end.
+
+Lemma acc_rr_exp_false s x : exp (acc_rr false s x) = Nat.max (exp s) (exp x).
+Proof. apply acc_exp. Qed.
+
+Lemma ct_step_spec cr c st g : st_ok cr c st -> sur_exp_ok g ->
+  let r := ct_step cr c st g in
+  st_ok cr c r /\
+  toQ (fst r) == toQ (fst st) + taxed_amount cr c g /\
+  optQ (snd r) == optQ (snd st) + taxed_surcharge cr c g /\
+  (snd r = None <-> snd st = None /\ carries_surcharge g = false).
+Proof.
+  intros (A & B & C) S. unfold ct_step, taxed_amount, taxed_surcharge, carries_surcharge, sur_exp_ok in *.
+  destruct (rt_pct g) as [p|].
+  2:{ cbv zeta. split; [exact (conj A (conj B C))|]. split; [ring|]. split; [ring|]. tauto. }
+  assert (EA : forall x, (c <= exp (acc_rr cr (fst st) x))%nat /\ (cr = true -> exp (acc_rr cr (fst st) x) = c)).
+  { intros x. destruct cr.
+    - rewrite acc_rr_true_exp. split; auto.
+    - rewrite acc_rr_exp_false. split; [lia|discriminate]. }
+  destruct (rt_sur g) as [s|]; cbv zeta; cbn [fst snd].
+  - set (x := match snd st with Some s0 => s0 | None => zero_of c end).
+    assert (X : (cr = true -> exp x = c) /\ (exp x <= exp (fst st))%nat /\ toQ x == optQ (snd st)).
+    { unfold x. destruct (snd st) as [s0|]; cbn [optQ].
+      - destruct C. repeat split; auto; reflexivity.
+      - repeat split; auto; apply toQ_zero. }
+    destruct X as (X1 & X2 & X3).
+    split; [|split; [|split]].
+    + unfold st_ok. cbn [fst snd]. destruct (EA (rt_amount g)) as [E1 E2]. repeat split; auto.
+      * intros E. apply (acc_rr_exp_true cr c); auto.
+      * destruct cr.
+        -- rewrite !acc_rr_true_exp. rewrite X1, A by reflexivity. lia.
+        -- rewrite !acc_rr_exp_false. lia.
+    + apply acc_rr_toQ, A.
+    + cbn [optQ]. rewrite (acc_rr_toQ cr c) by exact X1. rewrite X3. reflexivity.
+    + split; [discriminate|]. intros [_ H]. discriminate.
+  - split; [|split; [|split]].
+    + unfold st_ok. cbn [fst snd]. destruct (EA (rt_amount g)) as [E1 E2]. repeat split; auto.
+      destruct (snd st) as [s0|]; [|exact I]. destruct C as [C1 C2]. split; auto.
+      destruct cr.
+      * rewrite acc_rr_true_exp. exact C2.
+      * rewrite acc_rr_exp_false. lia.
+    + apply acc_rr_toQ, A.
+    + ring.
+    + tauto.
+Qed.
+
+Lemma ct_fold_spec cr c rts : Forall sur_exp_ok rts -> forall st, st_ok cr c st ->
+  let r := fold_left (ct_step cr c) rts st in
+  st_ok cr c r /\
+  toQ (fst r) == toQ (fst st) + sumQ_amounts cr c rts /\
+  optQ (snd r) == optQ (snd st) + sumQ_surcharges cr c rts /\
+  (snd r = None <-> snd st = None /\ existsb carries_surcharge rts = false).
+Proof.
+  induction rts as [|g r IH]; intros F st K; cbn [fold_left sumQ_amounts sumQ_surcharges fold_right existsb].
+  - cbv zeta. split; [exact K|]. split; [ring|]. split; [ring|]. tauto.
+  - inversion F; subst.
+    destruct (ct_step_spec cr c st g K) as (K' & E1 & E2 & E3); [assumption|].
+    destruct (IH H2 _ K') as (K'' & F1 & F2 & F3). cbv zeta.
+    split; [exact K''|]. split; [|split].
+    + rewrite F1, E1. fold (sumQ_amounts cr c r). ring.
+    + rewrite F2, E2. fold (sumQ_surcharges cr c r). ring.
+    + rewrite F3, E3, orb_false_iff. tauto.
+Qed.
+
+Lemma rt_calc_sur_exp_ok c g : sur_exp_ok (rt_calc c g).
+Proof.
+  pose proof (rt_calc_ok c g) as H. unfold group_amounts_ok, sur_exp_ok in *.
+  destruct (rt_pct (rt_calc c g)); [|exact I].
+  destruct (rt_sur (rt_calc c g)); [|exact I].
+  destruct H as (_ & _ & E1 & _ & _ & E2). congruence.
+Qed.
+
+Lemma st_ok_init cr c : st_ok cr c (zero_of c, None).
+Proof. unfold st_ok. cbn [fst snd zero_of exp]. auto. Qed.
+
+(* a category's amount is the sum of its non-exempt groups' amounts, its surcharge the sum of
+   their surcharge amounts (absent when no taxed group carries a surcharge); under 'currency'
+   each summand is first rounded to the currency's decimals (contrib true c x = rescale x c) *)
+Lemma category_amount_is_sum_of_groups cr c ct :
+  let ct' := ct_calc cr c ct in
+  toQ (ct_amount ct') == sumQ_amounts cr c (ct_rates ct') /\
+  optQ (ct_surcharge ct') == sumQ_surcharges cr c (ct_rates ct') /\
+  (ct_surcharge ct' = None <-> existsb carries_surcharge (ct_rates ct') = false) /\
+  ct_precise ct' = ct_amount ct'.
+Proof.
+  cbv zeta. unfold ct_calc. cbn [ct_amount ct_surcharge ct_rates ct_precise].
+  assert (F : Forall sur_exp_ok (map (rt_calc c) (ct_rates ct))).
+  { apply Forall_forall. intros g I. apply in_map_iff in I. destruct I as (g0 & <- & _). apply rt_calc_sur_exp_ok. }
+  destruct (ct_fold_spec cr c _ F _ (st_ok_init cr c)) as (_ & A & B & C).
+  cbn [fst snd optQ] in A, B, C. split; [|split; [|split]].
+  - rewrite A, toQ_zero. ring.
+  - rewrite B. ring.
+  - rewrite C. tauto.
+  - reflexivity.
+Qed.
+
+(* 'precise', written out: nothing is rounded when the groups are added up *)
+Lemma category_amount_is_sum_of_groups_precise c ct :
+  let ct' := ct_calc false c ct in
+  toQ (ct_amount ct') ==
+    fold_right (fun g s => match rt_pct g with Some _ => toQ (rt_amount g) | None => 0 end + s) 0 (ct_rates ct').
+Proof. apply (category_amount_is_sum_of_groups false c ct). Qed.
+
+(* 'currency', in integers: the category amount has the currency's decimals and is the integer
+   sum of the group amounts rounded to them *)
+Lemma category_amount_currency c ct :
+  let ct' := ct_calc true c ct in
+  exp (ct_amount ct') = c /\
+  val (ct_amount ct') =
+    fold_right (fun g s => match rt_pct g with Some _ => val (rescale (rt_amount g) c) | None => 0 end + s)%Z 0%Z
+               (ct_rates ct').
+Proof.
+  cbv zeta. unfold ct_calc. cbn [ct_amount ct_rates].
+  set (rts := map (rt_calc c) (ct_rates ct)). clearbody rts.
+  set (f := fun g s => (match rt_pct g with Some _ => val (rescale (rt_amount g) c) | None => 0 end + s)%Z).
+  assert (G : forall st, exp (fst st) = c ->
+            exp (fst (fold_left (ct_step true c) rts st)) = c /\
+            val (fst (fold_left (ct_step true c) rts st)) = (val (fst st) + fold_right f 0%Z rts)%Z).
+  { induction rts as [|g r IH]; intros st E; cbn [fold_left fold_right].
+    - split; [exact E|lia].
+    - assert (K : exp (fst (ct_step true c st g)) = c /\
+                  val (fst (ct_step true c st g)) =
+                  (val (fst st) + match rt_pct g with Some _ => val (rescale (rt_amount g) c) | None => 0 end)%Z).
+      { unfold ct_step. destruct (rt_pct g); [|split; [exact E|lia]].
+        destruct (rt_sur g); cbn [fst]; rewrite acc_rr_true_exp, acc_rr_true_val, E; split; reflexivity. }
+      destruct K as [K1 K2]. destruct (IH _ K1) as [I1 I2]. split; [exact I1|].
+      rewrite I2, K2. unfold f at 2. lia. }
+  destruct (G (zero_of c, None) eq_refl) as [G1 G2]. split; [exact G1|].
+  rewrite G2. cbn [fst zero_of val]. lia.
+Qed.
+
+(* ------------------------------------------------------------------------------------------ *)
+(* (e) the tax sum: ordinary categories added, retained ones subtracted, surcharges included  *)
+(* ------------------------------------------------------------------------------------------ *)
+Definition signedQ (ct : cat_total) : Q :=
+  if ct_retained ct then - (toQ (ct_amount ct) + optQ (ct_surcharge ct))
+  else toQ (ct_amount ct) + optQ (ct_surcharge ct).
+Definition sumQ_signed (cts : list cat_total) : Q := fold_right (fun ct s => signedQ ct + s) 0 cts.
+
+(* precision side condition met by every calculated category (ct_calc_exp_ok below): the
+   surcharge is not more precise than the amount; under 'currency' both have c decimals *)
+Definition cat_exp_ok (cr : bool) (c : nat) (ct : cat_total) : Prop :=
+  (cr = true -> exp (ct_amount ct) = c) /\
+  match ct_surcharge ct with Some x => (exp x <= exp (ct_amount ct))%nat | None => True end.
+
+Lemma sub_no_loss a b : (exp b <= exp a)%nat -> toQ (sub a b) == toQ a - toQ b.
+Proof.
+  intros H. rewrite sub_add_negate, add_no_loss by exact H. rewrite negate_toQ. reflexivity.
+Qed.
+
+Lemma sum_step_spec cr c s ct : (cr = true -> exp s = c) -> cat_exp_ok cr c ct ->
+  toQ (sum_step cr s ct) == toQ s + signedQ ct /\ (cr = true -> exp (sum_step cr s ct) = c).
+Proof.
+  intros Hs [Ha Hx]. unfold sum_step, signedQ.
+  set (s1 := match_rr cr s (ct_amount ct)).
+  assert (K : toQ s1 == toQ s /\ (exp (ct_amount ct) <= exp s1)%nat /\ (cr = true -> exp s1 = c)).
+  { unfold s1, match_rr. destruct cr.
+    - rewrite Hs, Ha by reflexivity. repeat split; auto; reflexivity.
+    - unfold match_precision. rewrite rescale_up_exp. repeat split; try lia; try discriminate.
+      apply rescale_up_toQ. }
+  destruct K as (K1 & K2 & K3). clearbody s1.
+  destruct (ct_retained ct); destruct (ct_surcharge ct) as [x|]; cbn [optQ].
+  - split; [|intros E; cbn [sub exp]; auto].
+    rewrite !sub_no_loss; [rewrite K1; ring| exact K2 | cbn [sub exp]; lia].
+  - split; [|intros E; cbn [sub exp]; auto].
+    rewrite sub_no_loss by exact K2. rewrite K1. ring.
+  - split; [|intros E; cbn [add exp]; auto].
+    rewrite !add_no_loss; [rewrite K1; ring| exact K2 | cbn [add exp]; lia].
+  - split; [|intros E; cbn [add exp]; auto].
+    rewrite add_no_loss by exact K2. rewrite K1. ring.
+Qed.
+
+Lemma tax_sum_signed_from cr c cts : Forall (cat_exp_ok cr c) cts -> forall s, (cr = true -> exp s = c) ->
+  toQ (fold_left (sum_step cr) cts s) == toQ s + sumQ_signed cts.
+Proof.
+  induction cts as [|ct r IH]; intros F s Hs; cbn [fold_left sumQ_signed fold_right].
+  - ring.
+  - inversion F; subst. destruct (sum_step_spec cr c s ct Hs) as [E1 E2]; [assumption|].
+    rewrite IH by assumption. rewrite E1. fold (sumQ_signed r). ring.
+Qed.
+
+Lemma ct_calc_exp_ok cr c ct : cat_exp_ok cr c (ct_calc cr c ct).
+Proof.
+  unfold ct_calc, cat_exp_ok. cbn [ct_amount ct_surcharge].
+  assert (F : Forall sur_exp_ok (map (rt_calc c) (ct_rates ct))).
+  { apply Forall_forall. intros g I. apply in_map_iff in I. destruct I as (g0 & <- & _). apply rt_calc_sur_exp_ok. }
+  destruct (ct_fold_spec cr c _ F _ (st_ok_init cr c)) as ((A & B & C) & _).
+  split; [exact A|]. destruct (snd _); [|exact I]. apply C.
+Qed.
+
+Lemma tax_sum_signed cr c cts :
+  toQ (fold_left (sum_step cr) (map (ct_calc cr c) cts) (zero_of c)) == sumQ_signed (map (ct_calc cr c) cts).
+Proof.
+  rewrite (tax_sum_signed_from cr c).
+  - rewrite toQ_zero. ring.
+  - apply Forall_forall. intros x I. apply in_map_iff in I. destruct I as (x0 & <- & _). apply ct_calc_exp_ok.
+  - reflexivity.
+Qed.
